@@ -428,6 +428,23 @@ def harnesses(tier):
                     "(enumerated by the engine)" % (w, len(alpha)),
                     outside="wider types, other winding numbers",
                     timeout_s=T))
+    for cls in ('circuit', 'zx', 'tensor', 'biclosed', 'cartesian'):
+        k, w = (2, 3) if q else (3, 4)
+        if cls in ('circuit', 'zx'):
+            k, w = (2, 2) if q else (2, 3)
+        hs.append(H("poolA_%s" % cls, poolA, dict(cls=cls, k=k, w=w),
+                    ["discopy.cat.Arrow.__getitem__",
+                     "discopy.monoidal.Diagram.__getitem__",
+                     "discopy.monoidal.Diagram.tensor",
+                     "discopy.monoidal.Diagram.then",
+                     "discopy.monoidal.Diagram.subclass"],
+                    covers=["generators", "composite"],
+                    engine="DSE (choices only: shapes are enumerated by the "
+                    "engine, no symbolic content)",
+                    bounds="%s: every generator of a fixed pool, and all "
+                    "composites of %d pool boxes of width <= %d" % (cls, k, w),
+                    outside="boxes outside the pool, deeper diagrams",
+                    timeout_s=T))
     for op in ('ctor', 'slices'):
         k = 3 if q else 4
         hs.append(H("catA_%s" % op, catA, dict(op=op, k=k, L=3),
@@ -438,3 +455,147 @@ def harnesses(tier):
                     bounds="cat arrows with %d boxes, object labels symbolic "
                     "in [0,3)" % k, outside="longer arrows", timeout_s=T))
     return hs
+
+
+# ------------------------------------------------- semantic diagram classes
+
+def _pools(cls):
+    """(types to start from, generator boxes, Id) of a semantic class"""
+    import numpy as np
+    if cls == 'circuit':
+        from discopy.quantum import circuit as C, gates as G
+        from discopy.quantum.circuit import (
+            bit, qubit, Measure, Encode, Discard, MixedState, Swap, Id)
+        doms = [qubit ** 0, qubit, bit, qubit @ bit, bit @ qubit, qubit ** 2,
+                bit ** 2]
+        boxes = [G.H, G.X, G.CX, G.Rz(0.25), G.Ket(0), G.Ket(1, 0), G.Bra(1),
+                 G.Bits(1), G.Bits(0, 1).dagger(), G.Copy(), G.Match(),
+                 Measure(), Measure(1, destructive=False),
+                 Measure(1, override_bits=True),
+                 Measure(1, destructive=False, override_bits=True),
+                 Measure(2), Encode(), Encode(1, constructive=False),
+                 Encode(1, reset_bits=True), Discard(), Discard(bit),
+                 Discard(qubit @ bit), MixedState(), MixedState(bit),
+                 MixedState(bit @ qubit), G.SWAP, Swap(bit, qubit),
+                 Swap(qubit, bit), G.scalar(0.5), G.scalar(0.5, is_mixed=True),
+                 G.Controlled(G.Rz(0.1)), G.CRz(0.3), G.sqrt(2)]
+        extra = [C.Circuit.cups(bit, bit), C.Circuit.cups(qubit, qubit),
+                 C.Circuit.caps(bit @ qubit, qubit @ bit),
+                 C.Circuit.swap(bit @ qubit, qubit),
+                 C.Circuit.permutation([2, 0, 1], bit @ qubit @ qubit)]
+        return doms, boxes, extra, Id
+    if cls == 'zx':
+        from discopy.quantum import zx
+        from discopy.rigid import PRO
+        doms = [PRO(n) for n in range(4)]
+        boxes = [zx.Z(1, 2, 0.25), zx.X(2, 1), zx.Z(0, 1), zx.X(1, 0, 0.5),
+                 zx.Z(1, 1, 0.5), zx.Y(1, 1), zx.H, zx.SWAP, zx.scalar(0.5j),
+                 zx.Z(2, 2), zx.X(0, 0, 0.5), zx.Z(0, 2)]
+        extra = [zx.Diagram.cups(PRO(2), PRO(2)), zx.Diagram.caps(PRO(1), PRO(1)),
+                 zx.Diagram.swap(PRO(2), PRO(1)),
+                 zx.Diagram.permutation([1, 2, 0])]
+        return doms, boxes, extra, zx.Id
+    if cls == 'tensor':
+        from discopy import tensor as T
+        from discopy.tensor import Dim
+        doms = [Dim(1), Dim(2), Dim(3), Dim(2, 3), Dim(3, 2), Dim(2, 2)]
+
+        def box(name, dom, cod):
+            n = int(np.prod(list(dom) + list(cod) or [1]))
+            return T.Box(name, dom, cod, list(range(1, n + 1)))
+        boxes = [box('f', Dim(2), Dim(3)), box('g', Dim(3, 2), Dim(2)),
+                 box('s', Dim(1), Dim(2)), box('e', Dim(3), Dim(1)),
+                 box('c', Dim(1), Dim(1)), box('h', Dim(2), Dim(2, 2)),
+                 box('f', Dim(2), Dim(3)).dagger(), T.Spider(1, 2, Dim(2)),
+                 T.Spider(2, 0, Dim(3)), T.Swap(Dim(2), Dim(3)),
+                 T.Swap(Dim(2), Dim(2))]
+        extra = [T.Diagram.cups(Dim(2, 3), Dim(3, 2)),
+                 T.Diagram.caps(Dim(2), Dim(2)),
+                 T.Diagram.swap(Dim(2, 3), Dim(2)),
+                 T.Diagram.spiders(2, 1, Dim(3))]
+        return doms, boxes, extra, T.Id
+    if cls == 'biclosed':
+        from discopy import biclosed as B
+        x, y, z = B.Ty('x'), B.Ty('y'), B.Ty('z')
+        doms = [B.Ty(), x, x @ y, (x << y) @ y, x @ (x >> y), (x << y) @ (y << z)]
+        f = B.Box('f', x @ y, z)
+        boxes = [B.FA(x << y), B.BA(x >> y), B.FA(x << (y @ z)),
+                 B.BA((x @ z) >> y), B.FC(x << y, y << z), B.BC(x >> y, y >> z),
+                 B.FX(x << y, z >> y), B.BX(y << x, y >> z), B.Curry(f),
+                 B.Curry(f, left=True), B.Box('w', B.Ty(), x << y),
+                 B.Box('v', B.Ty(), y), B.Box('u', B.Ty(), x),
+                 B.Box('t', B.Ty(), x >> y), f]
+        return doms, boxes, [], B.Id
+    if cls == 'cartesian':
+        from discopy import cartesian as K
+        from discopy.monoidal import PRO
+        doms = [PRO(n) for n in range(4)]
+        boxes = [K.Box('f', 1, 2, lambda x: (x, x)), K.Box('g', 2, 1, max),
+                 K.Box('c', 0, 1, lambda: 1), K.Box('d', 1, 0, lambda x: ()),
+                 K.Swap(1, 1), K.Copy(1), K.Discard(1), K.Box('s', 0, 0, lambda: ())]
+        extra = [K.Swap(2, 1), K.Copy(2), K.Discard(2)]
+        return doms, boxes, extra, K.Id
+    raise ValueError(cls)
+
+
+def _pool_diagram(E, doms, boxes, Id, k, w, tag=''):
+    d = Id(E.choice(tag + 'dom', doms))
+    for i in range(k):
+        scan = d.cod
+        cands = [(bi, off) for bi, b in enumerate(boxes)
+                 for off in range(len(scan) - len(b.dom) + 1)
+                 if scan[off:off + len(b.dom)] == b.dom
+                 and len(scan) - len(b.dom) + len(b.cod) <= w]
+        bi, off = E.choice('%sstep%d' % (tag, i), cands)
+        b = boxes[bi]
+        d = d >> Id(scan[:off]) @ b @ Id(scan[off + len(b.dom):])
+    return d
+
+
+def poolA(E, cls, k, w):
+    """semantic diagram classes: every generator, its dagger, and composite
+    diagrams built from them stay well-typed under dagger / slicing /
+    tensor / normal_form (shapes enumerated by the engine)"""
+    hook.enable(True)
+    try:
+        doms, boxes, extra, Id = _pools(cls)
+        # biclosed and cartesian categories have no dagger: not requested
+        dag = cls not in ('biclosed', 'cartesian')
+        part = E.choice('part', ['generators', 'extra', 'composite'])
+        out = []
+        if part == 'generators':
+            b = E.choice('box', boxes)
+            out += [b, Id(b.dom) >> b, b @ b]
+            if dag:
+                E.check(teq(b.dagger().dom, b.cod)
+                        and teq(b.dagger().cod, b.dom),
+                        "C01:%s:dagger-not-identity-on-objects" % cls,
+                        info=repr(b))
+                out += [b.dagger(), b[::-1], b.dagger().dagger(),
+                        (b @ b)[::-1], (b >> b.dagger()), (b.dagger() >> b)]
+        elif part == 'extra':
+            if not extra:
+                raise Abort()
+            d = E.choice('extra', extra)
+            out += [d, d @ d, d[1:], d[:1]]
+            if dag:
+                out += [d[::-1], d[::-1][::-1]]
+        else:
+            d = _pool_diagram(E, doms, boxes, Id, k, w)
+            i = E.choice('i', range(k + 1))
+            out += [d, d[:i], d[i:]]
+            if dag:
+                out += [d[::-1], d[:i][::-1], d[::-1][::-1]]
+            if cls not in ('cartesian',):
+                try:
+                    out.append(d.normal_form()
+                               if cls not in ('circuit', 'zx', 'tensor')
+                               else d)
+                except NotImplementedError:
+                    pass
+        for r in out:
+            E.check(welltyped(r), "C01:%s:%s:illtyped" % (cls, part),
+                    info=str(r)[:300])
+        E.cover(part)
+    finally:
+        hook.enable(False)
